@@ -100,3 +100,359 @@ Proof.
     destruct (parse (string_of_bytes sg)) as [t'|]; [|reflexivity].
     rewrite <- (IH t' r). destruct (sig_copy parse c f t' r) as [m [[d r']|l| |]]; reflexivity.
 Qed.
+
+(* ================= 1b. the upper bound: copied <= nest * consumed ================= *)
+(* what a reader has taken from its source: on success and on error the source says what it still
+   holds; for the two outcomes the totality theorems exclude, everything *)
+Definition used {A} (bs : bytes) (r : Wire.res (A * bytes)) : N :=
+  match r with
+  | ROk (_, rest) => blen bs - blen rest
+  | RErr l => blen bs - blen l
+  | _ => blen bs
+  end.
+
+(* a metered reader on input bs: the result is no longer than what was consumed, and every byte
+   consumed was copied at most [nest] times *)
+Definition mok (bs : bytes) (x : mres bytes) : Prop :=
+  match snd x with
+  | ROk (d, rest) => blen d + blen rest <= blen bs /\ copied (fst x) <= nest (fst x) * (blen bs - blen rest)
+  | RErr l => blen l <= blen bs /\ copied (fst x) <= nest (fst x) * (blen bs - blen l)
+  | _ => copied (fst x) <= nest (fst x) * blen bs
+  end.
+(* a sequence of readers at one level, their results already written into the enclosing buffer *)
+Definition clen (ds : list bytes) : N := blen (List.concat ds).
+Definition lok (bs : bytes) (x : mres (list bytes)) : Prop :=
+  match snd x with
+  | ROk (ds, rest) => clen ds + blen rest <= blen bs /\ copied (fst x) <= (nest (fst x) + 1) * (blen bs - blen rest)
+  | RErr l => blen l <= blen bs /\ copied (fst x) <= (nest (fst x) + 1) * (blen bs - blen l)
+  | _ => copied (fst x) <= (nest (fst x) + 1) * blen bs
+  end.
+
+Lemma mok_used : forall bs x, mok bs x -> copied (fst x) <= nest (fst x) * used bs (snd x).
+Proof. intros bs [m [[d rest]|l| |]] H; cbn [mok used fst snd] in *; tauto. Qed.
+
+Lemma blen_app : forall a b, blen (a ++ b) = blen a + blen b.
+Proof. intros a b. unfold blen. rewrite app_length. lia. Qed.
+Lemma blen_nil : blen [] = 0.
+Proof. reflexivity. Qed.
+Lemma clen_nil : clen [] = 0.
+Proof. reflexivity. Qed.
+Lemma clen_cons : forall d ds, clen (d :: ds) = blen d + clen ds.
+Proof. intros d ds. unfold clen. cbn [List.concat]. apply blen_app. Qed.
+Lemma clen_app : forall a b, clen (a ++ b) = clen a + clen b.
+Proof. intros a b. unfold clen. rewrite concat_app. apply blen_app. Qed.
+Lemma clen_repeat_nil : forall k, clen (repeat [] k) = 0.
+Proof. induction k as [|k IH]; [reflexivity|]. cbn [repeat]. rewrite clen_cons, IH. reflexivity. Qed.
+Lemma blen_0 : forall d, blen d = 0 -> d = [].
+Proof. intros [|b d] H; [reflexivity|]. unfold blen in H. cbn [List.length] in H. lia. Qed.
+
+(* the two monotonicity facts every step needs *)
+Lemma mul_le_l : forall a n n' u, a <= n * u -> n <= n' -> a <= n' * u.
+Proof. intros a n n' u Ha Hn. apply (N.le_trans _ _ _ Ha). apply N.mul_le_mono_r. exact Hn. Qed.
+Lemma mul_le_r : forall a n u u', a <= n * u -> u <= u' -> a <= n * u'.
+Proof. intros a n u u' Ha Hu. apply (N.le_trans _ _ _ Ha). apply N.mul_le_mono_l. exact Hu. Qed.
+Lemma mul_le_both : forall a n n' u u', a <= n * u -> n <= n' -> u <= u' -> a <= n' * u'.
+Proof. intros a n n' u u' Ha Hn Hu. apply (mul_le_l _ n); [|exact Hn]. apply (mul_le_r _ _ u); assumption. Qed.
+(* two stretches of input, two meters *)
+Lemma mul_le_sum : forall a b n u v, a <= n * u -> b <= n * v -> a + b <= n * (u + v).
+Proof. intros a b n u v Ha Hb. rewrite N.mul_add_distr_l. lia. Qed.
+
+Lemma mleaf_ok : forall bs r,
+  match r with ROk (d, rest) => blen d + blen rest <= blen bs | RErr l => blen l <= blen bs | _ => True end ->
+  mok bs (mleaf r).
+Proof.
+  intros bs [[d rest]|l| |] H; unfold mok; cbn [mleaf fst snd copied nest]; try lia.
+Qed.
+
+Lemma take_n_lens : forall n bs,
+  match take_n n bs with ROk (d, rest) => blen d + blen rest <= blen bs | RErr l => blen l <= blen bs | _ => False end.
+Proof.
+  intros n bs. unfold take_n. destruct (Nat.ltb (List.length bs) n) eqn:E.
+  - unfold blen. cbn [List.length]. lia.
+  - apply Nat.ltb_ge in E. unfold blen. rewrite firstn_length, skipn_length. lia.
+Qed.
+
+Lemma read_num_lens : forall w bs x r, read_num w bs = ROk (x, r) -> blen r + N.of_nat w = blen bs.
+Proof.
+  intros w bs x r H. unfold read_num, take_n in H. destruct (Nat.ltb (List.length bs) w) eqn:E; [discriminate|].
+  apply Nat.ltb_ge in E. cbn [bind] in H. inversion H; subst. unfold blen. rewrite skipn_length. lia.
+Qed.
+Lemma read_num_err : forall w bs l, read_num w bs = RErr l -> l = [].
+Proof.
+  intros w bs l H. unfold read_num, take_n in H. destruct (Nat.ltb (List.length bs) w); cbn [bind] in H; congruence.
+Qed.
+Lemma read_num_total : forall w bs, read_num w bs <> RPanic /\ read_num w bs <> RFuel.
+Proof. intros w bs. unfold read_num, take_n. destruct (Nat.ltb (List.length bs) w); cbn [bind]; split; discriminate. Qed.
+
+(* basic.ReadString: the string and what is left are no more than the input less the 4 bytes of the length *)
+Lemma read_str_lens : forall bs,
+  match read_str bs with
+  | ROk (s, rest) => 4 + blen s + blen rest <= blen bs
+  | RErr l => blen l <= blen bs
+  | _ => False
+  end.
+Proof.
+  intro bs. unfold read_str. destruct (read_num 4 bs) as [[n r]|l| |] eqn:E; cbn [bind].
+  - apply read_num_lens in E. destruct (n =? 0); [rewrite blen_nil; lia|].
+    destruct (MaxStringSize <? n); [lia|].
+    pose proof (take_n_lens (N.to_nat n) r) as H. destruct (take_n (N.to_nat n) r) as [[s rest]|l| |]; try lia; exact H.
+  - apply read_num_err in E. subst l. rewrite blen_nil. lia.
+  - destruct (read_num_total 4 bs) as [H _]. congruence.
+  - destruct (read_num_total 4 bs) as [_ H]. congruence.
+Qed.
+
+Lemma enc_str_blen : forall s, blen (enc_str s) = 4 + blen s.
+Proof. intro s. unfold enc_str, enc_u32. rewrite blen_app. unfold blen. rewrite le_length. lia. Qed.
+
+(* a member's result written into the enclosing buffer: one more copy of what the member consumed *)
+Lemma step_le : forall cm x n u, cm <= n * u -> x <= u -> cm + x <= (n + 1) * u.
+Proof. intros cm x n u H Hx. rewrite N.mul_add_distr_r. lia. Qed.
+Lemma join_le : forall a b n1 n2 u v w,
+  a <= (n1 + 1) * u -> b <= (n2 + 1) * v -> u + v <= w -> a + b <= (N.max n1 n2 + 1) * w.
+Proof.
+  intros a b n1 n2 u v w Ha Hb Hw.
+  apply (mul_le_r _ _ (u + v)); [|exact Hw]. apply mul_le_sum.
+  - apply (mul_le_l _ _ _ _ Ha). lia.
+  - apply (mul_le_l _ _ _ _ Hb). lia.
+Qed.
+
+Section LoopsOk.
+  Variable p : bytes -> mres bytes.
+  Hypothesis Hp : forall bs, mok bs (p bs).
+
+  Lemma mrep_nat_ok : forall k bs, lok bs (mrep_nat p k bs).
+  Proof.
+    induction k as [|k IH]; intro bs; cbn [mrep_nat].
+    - unfold lok. cbn [fst snd mzero copied nest]. rewrite clen_nil. lia.
+    - pose proof (Hp bs) as Hx. destruct (p bs) as [m [[x rest]|l| |]]; unfold mok in Hx; cbn [fst snd] in Hx.
+      + destruct Hx as [Hlen Hc]. pose proof (IH rest) as Hr.
+        destruct (mrep_nat p k rest) as [m' r']. unfold lok in Hr |- *. cbn [fst snd] in Hr |- *.
+        assert (Hs : copied m + blen x <= (nest m + 1) * (blen bs - blen rest)) by (apply step_le; [exact Hc|lia]).
+        destruct r' as [[xs rest']|l| |]; cbn [madd charge copied nest].
+        * destruct Hr as [Hlen' Hc']. rewrite clen_cons. split; [lia|].
+          apply (join_le _ _ _ _ _ _ _ Hs Hc'). lia.
+        * destruct Hr as [Hlen' Hc']. split; [lia|]. apply (join_le _ _ _ _ _ _ _ Hs Hc'). lia.
+        * apply (join_le _ _ _ _ _ _ _ Hs Hr). lia.
+        * apply (join_le _ _ _ _ _ _ _ Hs Hr). lia.
+      + unfold lok. cbn [fst snd]. destruct Hx as [Hlen Hc]. split; [exact Hlen|]. apply (mul_le_l _ _ _ _ Hc). lia.
+      + unfold lok. cbn [fst snd]. apply (mul_le_l _ _ _ _ Hx). lia.
+      + unfold lok. cbn [fst snd]. apply (mul_le_l _ _ _ _ Hx). lia.
+  Qed.
+
+  Lemma mrep_slow_ok : forall bs0 fuel n bs acc ma,
+    clen (rev acc) + blen bs <= blen bs0 -> copied ma <= (nest ma + 1) * (blen bs0 - blen bs) ->
+    lok bs0 (mrep_slow p fuel n bs acc ma).
+  Proof.
+    intros bs0 fuel. induction fuel as [|f IH]; intros n bs acc ma Hacc Hma; cbn [mrep_slow].
+    - destruct (n =? 0); unfold lok; cbn [fst snd]; [split; [exact Hacc|exact Hma]|].
+      apply (mul_le_r _ _ _ _ Hma). lia.
+    - destruct (n =? 0); [unfold lok; cbn [fst snd]; split; [exact Hacc|exact Hma]|].
+      pose proof (Hp bs) as Hx. destruct (p bs) as [m [[d bs']|l| |]]; unfold mok in Hx; cbn [fst snd] in Hx.
+      + destruct Hx as [Hlen Hc].
+        assert (Hs : copied m + blen d <= (nest m + 1) * (blen bs - blen bs')) by (apply step_le; [exact Hc|lia]).
+        destruct (Nat.ltb (List.length bs') (List.length bs)) eqn:Hlt.
+        * apply IH.
+          -- cbn [rev]. rewrite clen_app, clen_cons, clen_nil. lia.
+          -- cbn [madd charge copied nest]. apply (join_le _ _ _ _ _ _ _ Hma Hs). lia.
+        * apply Nat.ltb_ge in Hlt.
+          assert (Hb : blen bs' = blen bs) by (unfold blen in *; lia).
+          assert (Hd : d = []) by (apply blen_0; lia). subst d.
+          assert (Hm0 : copied m = 0).
+          { rewrite Hb, N.sub_diag, N.mul_0_r in Hc. lia. }
+          unfold lok. cbn [fst snd copied nest]. rewrite clen_app, clen_repeat_nil, Hm0, blen_nil, Hb.
+          split; [lia|]. rewrite N.mul_0_r, N.add_0_r. apply (mul_le_l _ _ _ _ Hma). lia.
+      + destruct Hx as [Hlen Hc]. unfold lok. cbn [fst snd madd copied nest]. split; [lia|].
+        assert (Hm1 : copied m <= (nest m + 1) * (blen bs - blen l)) by (apply (mul_le_l _ _ _ _ Hc); lia).
+        apply (join_le _ _ _ _ _ _ _ Hma Hm1). lia.
+      + unfold lok. cbn [fst snd madd copied nest].
+        assert (Hm1 : copied m <= (nest m + 1) * blen bs) by (apply (mul_le_l _ _ _ _ Hx); lia).
+        apply (join_le _ _ _ _ _ _ _ Hma Hm1). lia.
+      + unfold lok. cbn [fst snd madd copied nest].
+        assert (Hm1 : copied m <= (nest m + 1) * blen bs) by (apply (mul_le_l _ _ _ _ Hx); lia).
+        apply (join_le _ _ _ _ _ _ _ Hma Hm1). lia.
+  Qed.
+
+  Lemma mrep_ok : forall n bs, lok bs (mrep p n bs).
+  Proof.
+    intros n bs. unfold mrep. destruct (N.of_nat (List.length bs) <? n).
+    - apply mrep_slow_ok; cbn [rev mzero copied nest]; rewrite ?clen_nil; lia.
+    - apply mrep_nat_ok.
+  Qed.
+End LoopsOk.
+
+Lemma mseq_with_ok : forall ps, Forall (fun p : bytes -> mres bytes => forall bs, mok bs (p bs)) ps ->
+  forall bs, lok bs (mseq_with ps bs).
+Proof.
+  intros ps HF. induction HF as [|p ps' Hp HF' IH]; intro bs; cbn [mseq_with].
+  - unfold lok. cbn [fst snd mzero copied nest]. rewrite clen_nil. lia.
+  - pose proof (Hp bs) as Hx. destruct (p bs) as [m [[x rest]|l| |]]; unfold mok in Hx; cbn [fst snd] in Hx.
+    + destruct Hx as [Hlen Hc]. pose proof (IH rest) as Hr.
+      destruct (mseq_with ps' rest) as [m' r']. unfold lok in Hr |- *. cbn [fst snd] in Hr |- *.
+      assert (Hs : copied m + blen x <= (nest m + 1) * (blen bs - blen rest)) by (apply step_le; [exact Hc|lia]).
+      destruct r' as [[xs rest']|l| |]; cbn [madd charge copied nest].
+      * destruct Hr as [Hlen' Hc']. rewrite clen_cons. split; [lia|].
+        apply (join_le _ _ _ _ _ _ _ Hs Hc'). lia.
+      * destruct Hr as [Hlen' Hc']. split; [lia|]. apply (join_le _ _ _ _ _ _ _ Hs Hc'). lia.
+      * apply (join_le _ _ _ _ _ _ _ Hs Hr). lia.
+      * apply (join_le _ _ _ _ _ _ _ Hs Hr). lia.
+    + unfold lok. cbn [fst snd]. destruct Hx as [Hlen Hc]. split; [exact Hlen|]. apply (mul_le_l _ _ _ _ Hc). lia.
+    + unfold lok. cbn [fst snd]. apply (mul_le_l _ _ _ _ Hx). lia.
+    + unfold lok. cbn [fst snd]. apply (mul_le_l _ _ _ _ Hx). lia.
+Qed.
+
+(* the reader that wrote the members' results into its buffer returns that buffer *)
+Lemma mcat_ok : forall bs x, lok bs x -> mok bs (mcat x).
+Proof.
+  intros bs [m [[ds rest]|l| |]] H; unfold lok in H; unfold mok, mcat; cbn [fst snd cat_res bind deeper copied nest] in *;
+    exact H.
+Qed.
+
+Lemma mentry_ok : forall pk pv : bytes -> mres bytes,
+  (forall bs, mok bs (pk bs)) -> (forall bs, mok bs (pv bs)) -> forall b, mok b (mentry pk pv b).
+Proof.
+  intros pk pv Hk Hv b. unfold mentry.
+  pose proof (Hk b) as Hx. destruct (pk b) as [mk [[k r1]|l| |]]; unfold mok in Hx; cbn [fst snd] in Hx.
+  - destruct Hx as [Hlen Hc].
+    assert (Hs : copied mk + blen k <= (nest mk + 1) * (blen b - blen r1)) by (apply step_le; [exact Hc|lia]).
+    pose proof (Hv r1) as Hy. destruct (pv r1) as [mv [[v r2]|l| |]]; unfold mok in Hy |- *; cbn [fst snd] in Hy |- *;
+      cbn [deeper madd charge copied nest].
+    + destruct Hy as [Hlen' Hc']. rewrite blen_app. split; [lia|].
+      assert (Hs' : copied mv + blen v <= (nest mv + 1) * (blen r1 - blen r2)) by (apply step_le; [exact Hc'|lia]).
+      apply (join_le _ _ _ _ _ _ _ Hs Hs'). lia.
+    + destruct Hy as [Hlen' Hc']. split; [lia|].
+      assert (Hs' : copied mv <= (nest mv + 1) * (blen r1 - blen l)) by (apply (mul_le_l _ _ _ _ Hc'); lia).
+      apply (join_le _ _ _ _ _ _ _ Hs Hs'). lia.
+    + assert (Hs' : copied mv <= (nest mv + 1) * blen r1) by (apply (mul_le_l _ _ _ _ Hy); lia).
+      apply (join_le _ _ _ _ _ _ _ Hs Hs'). lia.
+    + assert (Hs' : copied mv <= (nest mv + 1) * blen r1) by (apply (mul_le_l _ _ _ _ Hy); lia).
+      apply (join_le _ _ _ _ _ _ _ Hs Hs'). lia.
+  - unfold mok. cbn [fst snd deeper copied nest]. destruct Hx as [Hlen Hc]. split; [exact Hlen|].
+    apply (mul_le_l _ _ _ _ Hc). lia.
+  - unfold mok. cbn [fst snd deeper copied nest]. apply (mul_le_l _ _ _ _ Hx). lia.
+  - unfold mok. cbn [fst snd deeper copied nest]. apply (mul_le_l _ _ _ _ Hx). lia.
+Qed.
+
+(* the 4 bytes of the count, written once at this level *)
+Lemma var_le : forall cm n u w, cm <= (n + 1) * u -> u + 4 <= w -> cm + 4 <= (n + 1) * w.
+Proof.
+  intros cm n u w H Hw. apply (mul_le_r _ _ (u + 4)); [|exact Hw]. rewrite N.mul_add_distr_l. lia.
+Qed.
+
+Lemma enc_u32_blen : forall n, blen (enc_u32 n) = 4.
+Proof. intro n. unfold enc_u32, blen. rewrite le_length. reflexivity. Qed.
+
+Lemma mvar_ok : forall p : bytes -> mres bytes, (forall bs, mok bs (p bs)) -> forall bs, mok bs (mvar p bs).
+Proof.
+  intros p Hp bs. unfold mvar. destruct (read_num 4 bs) as [[n r]|l| |] eqn:E.
+  - apply read_num_lens in E. pose proof (mrep_ok p Hp n r) as Hr.
+    destruct (mrep p n r) as [m x]. unfold lok in Hr. unfold mok. cbn [fst snd] in Hr |- *.
+    destruct x as [[ds rest]|l| |]; cbn [cat_res bind deeper charge copied nest].
+    + destruct Hr as [Hlen Hc]. rewrite blen_app, enc_u32_blen. fold (clen ds). split; [lia|].
+      apply (var_le _ _ _ _ Hc). lia.
+    + destruct Hr as [Hlen Hc]. split; [lia|]. apply (var_le _ _ _ _ Hc). lia.
+    + apply (var_le _ _ _ _ Hr). lia.
+    + apply (var_le _ _ _ _ Hr). lia.
+  - apply read_num_err in E. subst l. unfold mok. cbn [fst snd copied nest]. rewrite blen_nil. lia.
+  - unfold mok. cbn [fst snd copied nest]. lia.
+  - unfold mok. cbn [fst snd copied nest]. lia.
+Qed.
+
+Section BodyOk.
+  Variable c : wcfg.
+  (* with stringReader's dropped error (repaired in the tree: 4 result bytes for no input byte) a list
+     of strings makes a result of any size from 4 bytes of input: see drops_err_copy_unbounded *)
+  Hypothesis Hde : string_reader_drops_err c = false.
+  Variable dyn obj : bytes -> mres bytes.
+  Hypothesis Hdyn : forall bs, mok bs (dyn bs).
+  Hypothesis Hobj : forall bs, mok bs (obj bs).
+
+  Lemma string_reader_lens : forall bs,
+    match string_reader c bs with
+    | ROk (d, rest) => blen d + blen rest <= blen bs | RErr l => blen l <= blen bs | _ => True end.
+  Proof.
+    intro bs. unfold string_reader. rewrite Hde. pose proof (read_str_lens bs) as H.
+    destruct (read_str bs) as [[s r]|l| |]; try exact I; [|exact H].
+    rewrite enc_str_blen. lia.
+  Qed.
+
+  Lemma sig_copy_body_ok : forall t bs, mok bs (sig_copy_body c dyn obj t bs).
+  Proof.
+    induction t as [s|t' IH|tk tv IHk IHv|ts IH|name fs IH] using ty_ind2; intro bs.
+    - destruct s; cbn [sig_copy_body scalar_width];
+        try (apply mleaf_ok; pose proof (take_n_lens 1 bs) as H1; pose proof (take_n_lens 2 bs) as H2;
+             pose proof (take_n_lens 4 bs) as H4; pose proof (take_n_lens 8 bs) as H8;
+             match goal with |- match take_n ?w bs with _ => _ end => destruct (take_n w bs) as [[d rest]|l| |] end;
+             tauto).
+      + apply mleaf_ok. apply string_reader_lens.
+      + apply Hdyn.
+      + apply Hobj.
+      + apply mleaf_ok. lia.
+      + apply mleaf_ok. rewrite blen_nil. lia.
+    - cbn [sig_copy_body]. apply mvar_ok. exact IH.
+    - cbn [sig_copy_body]. apply mvar_ok. apply mentry_ok; assumption.
+    - cbn [sig_copy_body]. apply mcat_ok. apply mseq_with_ok.
+      induction IH as [|t ts' Ht HF IH']; cbn [map]; constructor; assumption.
+    - cbn [sig_copy_body]. apply mcat_ok. apply mseq_with_ok.
+      induction IH as [|f fs' Hf HF IH']; cbn [map]; constructor; assumption.
+  Qed.
+End BodyOk.
+
+Lemma mfail_ok : forall bs (r : Wire.res (bytes * bytes)),
+  match r with ROk _ => False | RErr l => blen l <= blen bs | _ => True end -> mok bs (mfail r).
+Proof.
+  intros bs [[d rest]|l| |] H; unfold mok, mfail; cbn [fst snd copied nest]; lia.
+Qed.
+
+Section SigCopyOk.
+  Variable parse : string -> option ty.
+  Variable c : wcfg.
+  Hypothesis Hde : string_reader_drops_err c = false.
+
+  Lemma sig_copy_obj_ok : forall bs, mok bs (sig_copy_obj c bs).
+  Proof.
+    intro bs. unfold sig_copy_obj. apply sig_copy_body_ok; [exact Hde| |];
+      intro b; apply mfail_ok; lia.
+  Qed.
+
+  Lemma mvalue_ok : forall inner : ty -> bytes -> mres bytes,
+    (forall t bs, mok bs (inner t bs)) -> forall bs, mok bs (mvalue parse c inner bs).
+  Proof.
+    intros inner Hin bs. unfold mvalue. pose proof (read_str_lens bs) as Hs.
+    destruct (read_str bs) as [[sg r]|l| |]; try (exfalso; exact Hs); [|apply mfail_ok; exact Hs].
+    destruct (parse (string_of_bytes sg)) as [t'|]; [|apply mfail_ok; lia].
+    pose proof (Hin t' r) as Hr. destruct (inner t' r) as [m [[d r']|l| |]]; unfold mok in Hr |- *;
+      cbn [fst snd deeper charge copied nest] in Hr |- *.
+    - destruct Hr as [Hlen Hc].
+      assert (Ho : blen ((if value_reader_no_len c then sg else enc_str sg) ++ d) <= 4 + blen sg + blen d).
+      { rewrite blen_app. destruct (value_reader_no_len c); [|rewrite enc_str_blen]; lia. }
+      split; [lia|]. apply (mul_le_r _ _ ((blen r - blen r') + (4 + blen sg))); [|lia].
+      rewrite N.mul_add_distr_l, N.mul_add_distr_r.
+      assert (Hc' : copied m <= nest m * (blen r - blen r')) by exact Hc.
+      assert (Ho' : blen ((if value_reader_no_len c then sg else enc_str sg) ++ d) <= (blen r - blen r') + (4 + blen sg)) by lia.
+      nia.
+    - destruct Hr as [Hlen Hc]. split; [lia|]. apply (mul_le_both _ _ _ _ _ Hc); lia.
+    - apply (mul_le_both _ _ _ _ _ Hr); lia.
+    - apply (mul_le_both _ _ _ _ _ Hr); lia.
+  Qed.
+
+  Lemma sig_copy_ok : forall fuel t bs, mok bs (sig_copy parse c fuel t bs).
+  Proof.
+    induction fuel as [|f IH]; intros t bs; cbn [sig_copy]; apply sig_copy_body_ok;
+      try exact Hde; try apply sig_copy_obj_ok.
+    - intro b. apply mfail_ok. exact I.
+    - apply mvalue_ok. exact IH.
+  Qed.
+
+  (* UPPER BOUND, every input, every fuel, every outcome: what the reader copies is at most the
+     nesting it reached times the bytes it consumed *)
+  Theorem sig_copy_bound : forall fuel t bs,
+    copied (fst (sig_copy parse c fuel t bs)) <= nest (fst (sig_copy parse c fuel t bs)) * used bs (snd (sig_copy parse c fuel t bs)).
+  Proof. intros fuel t bs. apply mok_used. apply sig_copy_ok. Qed.
+
+  Lemma used_le : forall {A} bs (r : Wire.res (A * bytes)), used bs r <= blen bs.
+  Proof. intros A bs [[a rest]|l| |]; cbn [used]; lia. Qed.
+
+  Corollary sig_copy_bound_len : forall fuel t bs,
+    copied (fst (sig_copy parse c fuel t bs)) <= nest (fst (sig_copy parse c fuel t bs)) * blen bs.
+  Proof. intros fuel t bs. apply (mul_le_r _ _ _ _ (sig_copy_bound fuel t bs)). apply used_le. Qed.
+End SigCopyOk.
